@@ -74,7 +74,11 @@ def dnf_netlist(n, cols):
         for j in range(1 << n):
             if (col >> j) & 1:
                 lits = [f'x{i}' if (j >> (n - 1 - i)) & 1 else f'nx{i}' for i in range(n)]
-                if n == 1:
+                if n == 0:
+                    lab = f'm{oi}_{j}'
+                    gates.append([lab, 'ALWAYS_TRUE', []])
+                    minterms.append(lab)
+                elif n == 1:
                     minterms.append(lits[0])
                 else:
                     lab = f'm{oi}_{j}'
@@ -229,9 +233,9 @@ def check_function(n, cols, reps, sets_budget=8):
 
 
 def small_functions(tier, seed):
-    """(n, cols) for all functions with n<=2, m<=2 and n=3, m=1 (quick: seeded half of the last)."""
+    """(n, cols) for all functions with n<=2 (incl. the constants n=0), m<=2 and n=3, m=1 (quick: seeded half of the last)."""
     out = []
-    for n in (1, 2):
+    for n in (0, 1, 2):
         size = 1 << (1 << n)
         for m in (1, 2):
             for cols in itertools.product(range(size), repeat=m):
@@ -536,7 +540,7 @@ def utilities(tier):
 
 SPEC = {
     'id': 'C12',
-    'rule': ('Finite sweep (sharded): every function with n<=2, m<=2 and n=3, m=1 (quick: a seeded half of the 256 n=3 '
+    'rule': ('Finite sweep (sharded): every function with n<=2 (from n=0, the constants), m<=2 and n=3, m=1 (quick: a seeded half of the 256 n=3 '
              'functions) x TruthTable (bool and string forms), PyFunction (sequence callable and from_positional) and a '
              'circuit built by an own DNF builder x every protocol query with every index argument, both inverse values, '
              'every non-empty output subset (+ reordered / repeated) for find_negations_to_make_symmetric; answers compared '
